@@ -297,6 +297,18 @@ class Analysis:
                 continue
             par = parents.get(n)
             self._consume(func, n, k, par, parents, types, via)
+        # ordered <&|^> parameter of a public method: the Set mixin iterates the right operand, i.e. the caller's collection - which may be a set
+        if (param_types is None or not param_types) and func.parent is None and func.cls is not None and not func.name.startswith('_') \
+                and func.module.name in PUBLIC_MODULES:
+            pnames = set(func.params[1:])
+            rebound = {t.id for s_ in stmts(func.body) if isinstance(s_, ast.Assign) for t in s_.targets if isinstance(t, ast.Name)}
+            for n in walk(func.body):
+                if (isinstance(n, ast.BinOp) and isinstance(n.op, (ast.BitAnd, ast.BitXor)) and isinstance(n.right, ast.Name) and n.right.id in pnames - rebound
+                        and (self._ordered_field(n.left) or self.kind(n.left, func, types) == ORD)
+                        and self._operator_override('__and__' if isinstance(n.op, ast.BitAnd) else '__xor__') is None):
+                    self._emit('bad', func, n, f'caller-supplied collection {n.right.id}',
+                               f'ordered {src(n.left)} {"&" if isinstance(n.op, ast.BitAnd) else "^"} {n.right.id}: the Set mixin builds the result by iterating the right '
+                               'operand - the order is the caller\'s (hash order when a set is passed); "&=" keeps the order of the left operand', via)
         # default-argument sources
         for name, d in func.defaults().items():
             if self.kind(d, func, {}) == SET:
